@@ -257,26 +257,42 @@ fn check(ctx: &Ctx) -> i32 {
     // plain family: every n up to n_max; regex family (fused into a RegexSet, the expensive path):
     // every n up to 40, then the sizes around powers of two and a few large ones
     let n_max: usize = ctx.tier.pick(130, 400);
-    let mut sizes: Vec<(usize, bool)> = (1..=n_max).map(|n| (n, false)).collect();
-    sizes.extend((1..=40).map(|n| (n, true)));
+    // families: 0 = plain, 1 = small regexes, 2 = full regexes with counted repetitions (each compiles
+    // to several KiB: the fused set is large although the group is small)
+    let mut sizes: Vec<(usize, u8)> = (1..=n_max).map(|n| (n, 0u8)).collect();
+    sizes.extend((1..=40).map(|n| (n, 1u8)));
     let around: Vec<usize> = ctx.tier.pick(vec![63, 64, 65, 66, 127, 128, 129, 130], vec![63, 64, 65, 66, 67, 100, 127, 128, 129, 130, 131, 191, 192, 193, 255, 256, 257, 258, 512, 768, 1024, 1536, 2048, 3000]);
-    sizes.extend(around.iter().map(|n| (*n, true)));
+    sizes.extend(around.iter().map(|n| (*n, 1u8)));
+    let heavy: Vec<usize> = ctx.tier.pick(vec![1, 2, 3, 4, 8, 16, 24, 32, 48, 64, 100], vec![1, 2, 3, 4, 8, 16, 24, 32, 48, 64, 100, 150, 200, 300, 400]);
+    sizes.extend(heavy.iter().map(|n| (*n, 2u8)));
     if ctx.tier == vh::Tier::Thorough {
-        sizes.extend([512usize, 1024, 2048, 3000].iter().map(|n| (*n, false)));
+        sizes.extend([512usize, 1024, 2048, 3000].iter().map(|n| (*n, 0u8)));
     }
     ctx.bound("group_size_max_every_n", n_max);
     ctx.bound("group_sizes_regex_family_beyond_40", json!(around));
+    ctx.bound("group_sizes_heavy_regex_family", json!(heavy));
     ctx.par_range("group sizes", sizes.len() as u64, 1, |i, l| {
-        let (n, regex_family) = sizes[i as usize];
+        let (n, family) = sizes[i as usize];
         let res = ResourceStorage::from_resources(vh::net::std_resources());
-        // plain family: `/adv/x0001`; regex family: `/adv/*x0001^` (compiled, fused into a RegexSet)
-        let rules: Vec<String> = (0..n).map(|k| if regex_family { format!("/adv/*x{:04}^", k) } else { format!("/adv/x{:04}", k) }).collect();
+        // plain family: `/adv/x0001`; regex family: `/adv/*x0001^` (compiled, fused into a RegexSet);
+        // heavy family: `/^https?:\/\/x\.com\/adv\/[a-z]{3,12}\/[a-z0-9]{10,60}x0001\//`
+        let rules: Vec<String> = (0..n)
+            .map(|k| match family {
+                0 => format!("/adv/x{:04}", k),
+                1 => format!("/adv/*x{:04}^", k),
+                _ => format!("/^https?:\\/\\/x\\.com\\/adv\\/[a-z]{{3,12}}\\/[a-z0-9]{{10,60}}x{:04}\\//", k),
+            })
+            .collect();
         let refs: Vec<&str> = rules.iter().map(|s| s.as_str()).collect();
         let mut reqs: Vec<Req> = vec![];
         // every URL for small groups; for large ones the first, the last, the chunk borders and one beyond
         let ks: Vec<usize> = if n <= n_max { (0..n + 1).collect() } else { let mut v: Vec<usize> = (0..n + 1).step_by(61).collect(); v.extend([n - 1, n, 63, 64, 65, 127, 128, 129, 255, 256, 257]); v };
         for k in ks {
-            let url = format!("https://x.com/adv/{}x{:04}/", if regex_family { "p/" } else { "" }, k);
+            let url = match family {
+                0 => format!("https://x.com/adv/x{:04}/", k),
+                1 => format!("https://x.com/adv/p/x{:04}/", k),
+                _ => format!("https://x.com/adv/abc/abcdefghij0123x{:04}/", k),
+            };
             if let Ok(req) = adblock::request::Request::new(&url, "https://y.com/", "script") {
                 reqs.push(Req { req, url, source: "https://y.com/".into(), ty: "script" });
             }
@@ -369,7 +385,7 @@ fn check(ctx: &Ctx) -> i32 {
     });
     ctx.finish(
         "model_checking",
-        "all ordered lists of <= k rules and all k'-element subsets of the rule alphabet (rules that share the wildcard / 'adv*' buckets and differ in one fusion-relevant attribute: pattern, exception, important, tag, type, party, anchors, regex, match-case, hostname, domain, redirect, csp, removeparam); five real blockers per list (built optimised, built unoptimised, unoptimised + optimize() twice, unoptimised + optimize() after every tag switch, built optimised without the last rule + add_filter(last rule) + optimize()), under every tag subset, against the request universe; all verdict fields and the CSP set must agree; plus n same-bucket fusable rules for every n up to a bound (group sizes), plus the rule cube: all pairs (thorough: triples) of 53 pattern shapes under each of 19 option sets, as blocking rules and as exceptions, and 12 same-bucket patterns under every two different option sets; non-trivial = the unoptimised engine reports anything",
+        "all ordered lists of <= k rules and all k'-element subsets of the rule alphabet (rules that share the wildcard / 'adv*' buckets and differ in one fusion-relevant attribute: pattern, exception, important, tag, type, party, anchors, regex, match-case, hostname, domain, redirect, csp, removeparam); five real blockers per list (built optimised, built unoptimised, unoptimised + optimize() twice, unoptimised + optimize() after every tag switch, built optimised without the last rule + add_filter(last rule) + optimize()), under every tag subset, against the request universe; all verdict fields and the CSP set must agree; plus n same-bucket fusable rules for every n up to a bound (group sizes; three families: plain, small regexes, full regexes with counted repetitions), plus the rule cube: all pairs (thorough: triples) of 53 pattern shapes under each of 19 option sets, as blocking rules and as exceptions, and 12 same-bucket patterns under every two different option sets; non-trivial = the unoptimised engine reports anything",
         &["differential: the unoptimised engine is the reference (its own correctness is C01's subject)"],
     )
 }
